@@ -19,13 +19,17 @@ def _mentions(node, names):
     return any(isinstance(n, ast.Name) and n.id in names for n in ast.walk(node))
 
 
-def nan_value(test, names):
-    """True / False / None (unknown) of `test` when every name in `names` holds a NaN"""
+def nan_value(test, names, temps=None, depth=0):
+    """True / False / None (unknown) of `test` when every name in `names` holds a NaN.
+    temps: local name -> the one expression assigned to it (a guard kept in a temporary is looked through)"""
+    temps = temps or {}
+    if isinstance(test, ast.Name) and test.id in temps and depth < 4:
+        return nan_value(temps[test.id], names, temps, depth + 1)
     if isinstance(test, ast.UnaryOp) and isinstance(test.op, ast.Not):
-        v = nan_value(test.operand, names)
+        v = nan_value(test.operand, names, temps, depth)
         return None if v is None else (not v)
     if isinstance(test, ast.BoolOp):
-        vs = [nan_value(v, names) for v in test.values]
+        vs = [nan_value(v, names, temps, depth) for v in test.values]
         if isinstance(test.op, ast.And):
             if any(v is False for v in vs):
                 return False
@@ -103,19 +107,31 @@ def _refuses_nan(repo, f, param, depth=0):
     """(verdict, [guards seen as text])"""
     names = _tainted(f.node, {param})
     seen = []
+    # boolean temporaries: names assigned exactly once from an expression that mentions the value
+    count, temps = {}, {}
     for n in walk_local(f.node):
-        if isinstance(n, ast.If) and _mentions(n.test, names):
+        if isinstance(n, ast.Assign) and len(n.targets) == 1 and isinstance(n.targets[0], ast.Name):
+            count[n.targets[0].id] = count.get(n.targets[0].id, 0) + 1
+            temps[n.targets[0].id] = n.value
+        elif isinstance(n, (ast.AugAssign, ast.AnnAssign)) and isinstance(n.target, ast.Name):
+            count[n.target.id] = count.get(n.target.id, 0) + 2
+    temps = {k: v for k, v in temps.items() if count.get(k) == 1 and k not in names and _mentions(v, names)}
+
+    def mentions(t):
+        return _mentions(t, names) or _mentions(t, set(temps))
+    for n in walk_local(f.node):
+        if isinstance(n, ast.If) and mentions(n.test):
             if _raises(n.body):
                 seen.append(ast.unparse(n.test))
-                if nan_value(n.test, names) is True:
+                if nan_value(n.test, names, temps) is True:
                     return True, seen
             elif _raises(n.orelse):
                 seen.append('not (%s)' % ast.unparse(n.test))
-                if nan_value(n.test, names) is False:
+                if nan_value(n.test, names, temps) is False:
                     return True, seen
-        elif isinstance(n, ast.Assert) and _mentions(n.test, names):
+        elif isinstance(n, ast.Assert) and mentions(n.test):
             seen.append('assert ' + ast.unparse(n.test))
-            if nan_value(n.test, names) is False:
+            if nan_value(n.test, names, temps) is False:
                 return True, seen
     if depth < 3:
         for n in walk_local(f.node):
